@@ -37,7 +37,8 @@ IsMateScore(v) == v <= LostIn(MAX_DEPTH) \/ v >= WinIn(MAX_DEPTH)
 \* g: ChessGame state; legal: Legal(g.cur) (computed once); chk: InCheck(g.cur)
 MkFrame(g, q, ply, d, a, b, how) ==
   [g |-> g, q |-> q, ply |-> ply, d |-> d, a |-> a, b |-> b, how |-> how,
-   legal |-> Legal(g.cur), chk |-> InCheck(g.cur), kids |-> 0]
+   legal |-> Legal(g.cur), chk |-> InCheck(g.cur), kids |-> 0,
+   ab |-> FALSE, abp |-> g.cur]      \* ab: a child reached by a move (position abp) has returned with the stop flag up
 
 \* the rules end the line here: the node returns at once, without visiting anything
 \*   search():  (not at the root) repeated once, fifty moves, threefold, dead material; or no legal move
@@ -81,6 +82,10 @@ StepFaults(p, rel, cpos, q, ply, d, a, b) ==
   (IF ~(a < b) /\ ~(rel = "iid" /\ InvertedRoot(p.a, p.b)) THEN {"empty_window"} ELSE {})
   \cup (IF Terminal(p) THEN {"child_of_terminal_node"} ELSE {})
   \cup (IF rel = "bad" THEN {"not_a_successor"} ELSE {})
+  \* an abandoned search unwinds: once a move's child has come back with the stop flag up, search() tries no OTHER move (the re-searches
+  \* of the same move may still be entered, they return at once); nothing derived from the 0 such a child returns is compared with the
+  \* bounds or reaches the table - repair 4489584
+  \cup (IF rel = "move" /\ p.q = 0 /\ p.ab /\ cpos # p.abp THEN {"move_tried_after_aborted_child"} ELSE {})
   \* (windows nest below a proper window; below an inverted root window - see InvertedRoot - nothing is required)
   \cup (IF p.a < p.b /\ rel \in {"move", "null"} /\ ~(-p.b <= a /\ b <= -p.a) THEN {"window_outside_parent"} ELSE {})
   \cup (IF p.a < p.b /\ rel \in {"verify", "iid", "qentry"} /\ ~(p.a <= a /\ b <= p.b) THEN {"window_outside_parent"} ELSE {})
